@@ -43,7 +43,7 @@ class BloomSystem(System):
         depth = 5 if tier == "quick" else 7
         if prop in ("C05", "C19") and tier == "quick":
             ns = (1, 2, 3, 5, 8, 12)
-            depth = 4
+            depth = 3
         if prop == "C06":
             depth = 4 if tier == "quick" else 6
         if prop == "C14" and tier == "quick":
@@ -63,8 +63,8 @@ class BloomSystem(System):
                     if tier == "quick":
                         if prop in ("C05", "C19") and s not in ("table", "fnv"):
                             continue  # export/load and queries do not depend on the strategy beyond the probe positions
-                        if prop in ("C01", "C14") and s not in ("table", "fnv") and n not in (1, 2, 3, 5, 8, 12):
-                            continue  # the other four strategies on half of the geometries
+                        if prop in ("C01", "C14") and s != "table" and n not in (1, 2, 3, 5, 8, 12):
+                            continue  # the table strategy on all geometries, the other five on half of them
                         if prop == "C14" and s in ("sha256", "dec_bytes"):
                             continue
                         if prop == "C01" and s not in ("table", "fnv"):
@@ -78,7 +78,7 @@ class BloomSystem(System):
             for s in ("cover", "fnv"):
                 small = n >= 1000  # a 6 kB array: a handful of states is enough to cross every block boundary
                 cfgs.append(dict(n=n, p=p, strat=s, depth=(5 if small else 12) if tier == "quick" else (8 if small else 18), seed=seed,
-                                 m=m, k=k, corridor=True, nkeys=(4 if small else 10) if tier == "quick" else (6 if small else 16),
+                                 m=m, k=k, corridor=True, nkeys=(4 if small else 8) if tier == "quick" else (6 if small else 16),
                                  cost=40000))
         if prop == "C06":
             cfgs = [c for c in cfgs if c["strat"] == "fnv"]  # the C reference implements the documented FNV-1a rule
